@@ -247,6 +247,7 @@ def inline_cases(tier):
         # a long-lived connection: 700 small responses, each arriving whole (END_STREAM in the same read as all of its DATA), 28 MB in total - more
         # than the client's connection-level credit, so the credit for such frames has to come back too
         cases.append({"what": "download", "sync": sync, "sizes": [40000] * 700, "frame": 16384})
+        cases.append({"what": "held-download", "sync": sync, "size": CREDIT + 3 * MiB})
         cases.append({"what": "download", "sync": sync, "sizes": [66500], "frame": 1, "pad": 255})
         cases.append({"what": "download", "sync": sync, "sizes": [3 * MiB, 3 * MiB], "frame": 8192, "pad": 200})
         if tier == "thorough":
@@ -254,6 +255,63 @@ def inline_cases(tier):
             cases.append({"what": "upload", "sync": sync, "size": 2 * MiB + 1, "chunks": [500000], "wu_mode": "lazy", "wu_inc": 0, "settings": {"3": 100}})
             cases.append({"what": "upload", "sync": sync, "size": MiB, "chunks": [MiB], "wu_mode": "tiny", "wu_inc": 8192, "settings": {"3": 100, "5": 1 << 20}})
     return cases
+
+
+def execute_held_download(case) -> Outcome:
+    """A big response is opened and left unread while a second, bodiless request on the same connection reads from the network: the big response's
+    DATA is buffered until the server is out of credit. Then the big response is read: the credit for what the caller consumes has to reach the server,
+    or the rest never comes."""
+    size = case["size"]
+    plans = {"big": {"body_len": size, "h2_frames": [16384]}, "small": {"status": 204, "body_len": 0}}
+    pool_cfg, cfg, scheme = topo("direct-h2", plans=plans)
+    world = World(peer_factory=cfg.peer_factory)
+    pool = build_pool(world, pool_cfg, sync=case["sync"])
+    res = {"got": 0, "small": None, "exc": None}
+    from ..drivers import HarnessHang, exc_info
+
+    def hang(exc):
+        return {"type": "HANG", "name": "HANG", "msg": str(exc) or "blocked for ever"}
+
+    if case["sync"]:
+        try:
+            with pool.stream("GET", "https://a.test/t/big") as resp:
+                r2 = pool.request("GET", "https://a.test/t/small")
+                res["small"] = r2.status
+                for part in resp.iter_stream():
+                    res["got"] += len(part)
+        except HarnessHang as exc:
+            res["exc"] = hang(exc)
+        except BaseException as exc:
+            res["exc"] = exc_info(exc)
+        pool.close()
+    else:
+        async def go():
+            import asyncio
+
+            try:
+                async with pool.stream("GET", "https://a.test/t/big") as resp:
+                    r2 = await pool.request("GET", "https://a.test/t/small")
+                    res["small"] = r2.status
+                    async for part in resp.aiter_stream():
+                        res["got"] += len(part)
+            except HarnessHang as exc:
+                res["exc"] = hang(exc)
+            except asyncio.CancelledError as exc:
+                res["exc"] = hang(exc)
+            except BaseException as exc:
+                res["exc"] = exc_info(exc)
+            await pool.aclose()
+
+        run_async(go())
+    vio = []
+    base = dict(layer="inline", what="held-download")
+    desc = f"[{'sync' if case['sync'] else 'async'}] a {size}-byte response held unread while another request reads from the connection, then read"
+    if res["exc"] is not None:
+        kind = "download-stalled" if res["exc"]["type"] == "HANG" else "transfer-failed"
+        vio.append(V(P, kind, f"{desc}: after {res['got']} bytes: {res['exc']['type']}: {res['exc'].get('msg', '')[:160]}", **base))
+    elif res["got"] != size:
+        vio.append(V(P, "download-corrupted", f"{desc}: {res['got']} bytes arrived", **base))
+    return Outcome(vio, ["download", "held-download"], True, info={"small": res["small"], "got": res["got"]}, metrics={"bytes_downloaded": res["got"]})
 
 
 def execute_inline(case) -> Outcome:
@@ -284,6 +342,8 @@ def execute_inline(case) -> Outcome:
         tags = ["upload", "wu-" + case["wu_mode"]]
         nontrivial = case["size"] > (case["settings"].get("4", W))
         return Outcome(vio[:4], tags, nontrivial, info={"ops": len(world.trace)}, metrics={"bytes_uploaded": case["size"]})
+    if case["what"] == "held-download":
+        return execute_held_download(case)
     plans = {f"g{i}": {"body_len": n, "h2_frames": [case["frame"]], "h2_pad": case.get("pad", 0)} for i, n in enumerate(case["sizes"])}
     pool_cfg, cfg, scheme = topo("direct-h2", plans=plans)
     world = World(peer_factory=cfg.peer_factory)
